@@ -6,7 +6,7 @@
                          consistent with real time, that the model explains?
                          item = <tok>@<inv>-<resp>=<obs>[+<obs>...]   (times: integers; obs "-" = none)
 
-   tokens   c | f:<conn>:<key> | b:<conn> | m:<conn> | s:<conn> | sc:<conn> | sr:<conn> | w:<key>
+   tokens   c | f:<conn>:<key> | ff:<conn>:<key> (the first message is a sub-package fragment: the same join) | b:<conn> | m:<conn> | s:<conn> | sc:<conn> | sr:<conn> | w:<key>
             (s, sc, sr: the connection ends by FIN, close, RST - one and the same model operation Stop)
    obs      j:<conn>:<key>:<e> | l:<conn>:<key> | r:<caller>:<conn> | n:<caller>
             (in reglin the caller of r/n is written * and not compared: caller numbers depend on the order;
@@ -23,7 +23,7 @@ open Registry
 let choice_of_tok (t : string) : choice =
   match String.split_on_char ':' t with
   | ["c"] -> Connect
-  | ["f"; c; k] -> FirstMsg (nat_of_int (int_of_string c), n_of_int (int_of_string k))
+  | [("f" | "ff"); c; k] -> FirstMsg (nat_of_int (int_of_string c), n_of_int (int_of_string k))
   | ["b"; c] -> BadKeyMsg (nat_of_int (int_of_string c))
   | ["m"; c] -> Msg (nat_of_int (int_of_string c))
   | [("s" | "sc" | "sr"); c] -> Stop (nat_of_int (int_of_string c))
